@@ -86,6 +86,7 @@ pub fn pcfg(cx: &Cx) -> (PCfg, Vec<&'static str>) {
     }
     if cx.excluded(KF_UPVALUE_BRANCH) {
         c.capture_in_branch = false;
+        c.if_in_lambda = false;
         off.push(KF_UPVALUE_BRANCH);
     }
     if cx.excluded(KF_UNRESOLVED_SELF) {
